@@ -22,7 +22,7 @@ pub open spec fn typed_get<V: StdSer>(raw: IMap<Seq<u8>, Seq<u8>>, k: Seq<u8>) -
            requires=[C("valid", f"self.mapping@[{KEY}].len() > 0 ==> V::de(self.mapping@[{KEY}]) is Some",
                        note="tree invariant: every non-empty entry under a typed key decodes (`expect(\"SmtMapping saw invalid data\")` panics otherwise); entries are only ever written by insert")],
            ensures=[C("typed", f"res == typed_get::<V>(self.mapping@, {KEY})", "C07"),
-                    C("view", "res == (if typed_view::<K, V>(self.mapping@).contains_key(*key) { Some(typed_view::<K, V>(self.mapping@)[*key]) } else { None::<V> })", "C07", note="refinement: get reads the typed view")],
+                    C("view", "res == (if typed_view::<K, V>(self.mapping@).contains_key(*key) { Some(typed_view::<K, V>(self.mapping@)[*key]) } else { None::<V> })", "C07", "C15", "C16", "C18", "C04", note="refinement: get reads the typed view")],
            rewrites=[("DROPTIMER",)]),
         Fn(SM, "get_with_proof", impl="SmtMapping", wrap=W, home="C07", implicit_props=("C09", "C07"),
            requires=[C("valid", f"self.mapping@[{KEY}].len() > 0 ==> V::de(self.mapping@[{KEY}]) is Some", note="tree invariant, as for get")],
@@ -45,7 +45,7 @@ pub open spec fn typed_get<V: StdSer>(raw: IMap<Seq<u8>, Seq<u8>>, k: Seq<u8>) -
         Fn(SM, "delete", impl="SmtMapping", wrap=W, home="C07", implicit_props=("C09", "C07"),
            ensures=[C("raw", f"final(self).mapping@ == old(self).mapping@.insert({KEY}, Seq::<u8>::empty())", "C07"),
                     C("gone", f"typed_get::<V>(final(self).mapping@, {KEY}) is None", "C07"),
-                    C("typed", "typed_view::<K, V>(final(self).mapping@) == typed_view::<K, V>(old(self).mapping@).remove(*key)", "C07", note="refinement: delete is map removal at the level of the typed view")],
+                    C("typed", "typed_view::<K, V>(final(self).mapping@) == typed_view::<K, V>(old(self).mapping@).remove(*key)", "C07", "C15", "C16", note="refinement: delete is map removal at the level of the typed view")],
            injects=[Inject("entry", "let ghost k0 = *key;"), Inject("end", "proof { lemma_typed_delete::<K, V>(old(self).mapping@, k0); }")],
            rewrites=[("DROPTIMER",), ("SUB", "self.mapping.insert(key.0, Default::default());", "self.mapping.insert(key.0, empty_slice());")]),
         Fn(SM, "val_iter", impl="SmtMapping", wrap=W, home="C07", implicit_props=("C09", "C07", "C16"),
